@@ -260,7 +260,7 @@ def _c04(tier, seed):
     if tier == 'thorough':
         for be in ['fftw', 'nayuki-avx', 'spqlios-avx']:
             jobs += J('c04.cpp', 'optim', be, n=4, args=['part=main'], deadline=2400, timeout=3000)
-        jobs += J('c04.cpp', 'debug', 'nayuki-portable', n=8, args=['part=main'], deadline=2400, timeout=3000)
+        jobs += J('c04.cpp', 'debug', 'nayuki-portable', n=8, args=['part=main', 'light=1'], deadline=2400, timeout=3000)
     return jobs
 PROPS['C04'] = dict(
     technique='exhaustive sweep of all 2N rounded phases / boundary targets per configuration with harness-built exact keys; analytic error-budget oracle; guard pages and ASan for n > N',
